@@ -398,6 +398,34 @@ def member_unplan_rejected(rng):
     return m, ops
 
 
+def initial_group_mixed_fixed(rng):
+    """a stop group given as initial stops of one vehicle with the fixed flag on one member only, one or two free initial stops
+    around it, and a maximum duration the initial route may or may not exceed: what addInitialSolution removes"""
+    extra = rng.randint(1, 2)
+    n = 2 + extra
+    N = n + 2
+    stops = [{"quantity": [], "duration": rng.choice([0, 60, 300]), "windows": [], "max_wait": None, "penalty": rng.choice([None, 500]),
+              "attrs": [], "target": None, "early_pen": 0, "late_pen": 0} for _ in range(n)]
+    units = [{"stops": [i], "arcs": [], "orders": [[i]]} for i in range(n)]
+    dur = [[0 if i == j else rng.randint(60, 900) for j in range(N)] for i in range(N)]
+    dist = [[0 if i == j else rng.randint(10, 3000) for j in range(N)] for i in range(N)]
+    seq = list(range(n))
+    rng.shuffle(seq)
+    fixed_member = rng.choice([0, 1])
+    total = sum(dur[a][b] for a, b in zip([n] + seq, seq + [n + 1])) + sum(s_["duration"] for s_ in stops)
+    ve = {"capacity": None, "start_level": [], "start_time": T0, "end_time": None,
+          "max_duration": max(60, int(total * rng.choice([0.4, 0.7, 0.95, 1.5]))), "max_stops": None,
+          "max_distance": None, "max_wait": None, "attrs": [], "activation": None, "has_start": True, "has_end": True,
+          "initial": [(x, x == fixed_member) for x in seq], "min_stops": 0, "min_stops_pen": 0}
+    opts = {k: False for k in ["dis_capacity", "dis_distance", "dis_max_duration", "dis_end_time", "dis_windows", "dis_max_stops",
+                               "dis_max_wait_stop", "dis_max_wait_vehicle", "dis_attributes", "dis_start_time", "dis_durations", "dis_dgroups"]}
+    opts.update({"f_activation": 0, "f_travel": 1, "f_vehicles_duration": 1, "f_unplanned": 1, "f_early": 0, "f_late": 0, "f_min_stops": 0,
+                 "f_stop_balance": 0})
+    m = {"dgroups": [], "groups": [[0, 1]], "user": [], "stops": stops, "vehicles": [ve], "units": units, "arcs": [], "dur": dur, "dist": dist,
+         "nres": 0, "res_mode": "none", "opts": opts, "features": {"groups": True, "initial": True}}
+    return m, ["op snapall"]
+
+
 def unit_of(units, x):
     for k, u in enumerate(units):
         if x in u["stops"]:
